@@ -2242,7 +2242,8 @@ impl ProtocolState {
     fn create_connect(&self) -> Box<MqttPacket> {
         let mut connect = self.config.connect_options.to_connect_packet(self.has_connected_successfully);
 
-        if connect.client_id.is_none() {
+        // an empty client id asks the server to assign one, just like no client id at all
+        if connect.client_id.as_deref().unwrap_or("").is_empty() {
             if let Some(settings) = &self.current_settings {
                 connect.client_id = Some(settings.client_id.clone());
             }
